@@ -170,6 +170,7 @@ fn replay(args: &[String]) -> i32 {
                         cfg: cfg::Cfg::from_json(&case["cfg"]).unwrap_or_default(),
                         range: ctx::range_from_json(&case["range"]),
                         pinned: true,
+                        presig: None,
                     };
                     props::libprops::check(&mut ctx, &prop, &ev);
                 } else if prop == "C04" {
